@@ -106,7 +106,19 @@ func (t SSE) Do(w http.ResponseWriter, r *http.Request, exec graphql.GraphExecut
 		c.keepAliveTicker = time.NewTicker(t.KeepAlivePingInterval)
 		c.mu.Unlock()
 
-		go c.keepAlive(w)
+		// The keep-alive goroutine writes to w, which must not be used once Do has returned:
+		// stop it and wait until it is gone before returning.
+		keepAliveCtx, stopKeepAlive := context.WithCancel(ctx)
+		c.ctx = keepAliveCtx
+		keepAliveDone := make(chan struct{})
+		go func() {
+			defer close(keepAliveDone)
+			c.keepAlive(w)
+		}()
+		defer func() {
+			stopKeepAlive()
+			<-keepAliveDone
+		}()
 	}
 
 	if opErr != nil {
